@@ -287,6 +287,18 @@ func (sc *c08Scenario) Run(s *simrt.Sim) {
 		}
 		ll.KeepNodePoolCount(sc.Trim[1])
 		sc.probes["node-pool-trimmed"]++
+		if sc.Trim[0]%2 == 0 {
+			// ... and resets it with Clear() while it holds a few elements and no call is in flight (a cancellation path)
+			for i := 0; i <= sc.Trim[1]; i++ {
+				if cq != nil {
+					cq.Offer(-7000 - i)
+				} else {
+					cs.Push(-7000 - i)
+				}
+			}
+			ll.Clear()
+			sc.probes["wrapped-structure-cleared-by-its-owner"]++
+		}
 	}
 	for round := 0; round < 2 && sc.Warm > 0; round++ {
 		// (not part of the recorded history: the structure is empty again when the history starts)
